@@ -582,6 +582,10 @@ func random(req request) result {
 				ev["err"] = fmt.Sprint(ev["err"], " update: ", err.Error())
 			}
 			ev["flen"] = fileLen(path)
+			if req.Dump == i && res.Dump == nil {
+				// the node could not be encoded / decoded / stored at all: that is what the re-run has to show
+				res.Dump = map[string]interface{}{"event": i, "stored": content(c, true), "error": ev["err"]}
+			}
 			if _, ok := written[p]; !ok {
 				pages = append(pages, p)
 			}
@@ -613,6 +617,9 @@ func random(req request) result {
 				}
 			}
 			ev["flen"] = fileLen(path)
+			if req.Dump == i && res.Dump == nil {
+				res.Dump = map[string]interface{}{"event": i, "page": p, "last_stored": content(written[p], true), "error": ev["err"]}
+			}
 			emit(ev)
 			if ev["err"] != "" || ev["node"] != digest(written[p]) {
 				stop = true
